@@ -213,16 +213,15 @@ void WorkThread::threadProc()
             }
 
             item = popOneTask();    //! 从任务队列中取出优先级最高的任务
+            //! 取出任务的同时就登记为"正在执行"，保证任务在任何时刻都能被 getTaskStatus()/cancel() 查到
+            if (item != nullptr)
+                d_->doing_tasks_token.insert(item->token);
         }
         TBOX_VERIF_SCHED_POINT("work_thread.after_pop");
 
         //! 后面就是去执行任务，不需要再加锁了
         if (item != nullptr) {
             RECORD_SCOPE();
-            {
-                std::lock_guard<std::mutex> lg(d_->lock);
-                d_->doing_tasks_token.insert(item->token);
-            }
 
             LogDbg("thread pick task %u", item->token.id());
 
